@@ -9,7 +9,7 @@ from vlib import gh
 from vlib.common import Stats, Violation, hyp, shard_seed, sweep
 from vlib.refs import BLANK_CHARS, escape_cell, is_blank, ref_row, split_units, trim
 
-ALPHABET = "|\\n x"
+ALPHABET = "|\\n x#"
 PREFIX = "Feature: f\n Scenario: s\n  Given x\n"
 RAGGED = "inconsistent cell count within the table"
 
@@ -245,7 +245,7 @@ def replay(case, stats):
 def run(ctx):
     q = ctx.quick
     ns = 8 if q else 16
-    maxlen, doclen = (6, 5) if q else (9, 7)
+    maxlen, doclen = (6, 5) if q else (8, 6)
     ctx.units("rows-exhaustive", unit_rows,
               [{"maxlen": maxlen, "doclen": doclen, "shard": i, "nshards": ns} for i in range(ns)], procs=ns)
     ctx.units("rows-long", unit_long_rows, [{"lengths": list(range(1, 40)) + [63, 64, 65, 100, 127, 128, 129, 255, 256, 257, 300] + ([] if q else [1000, 4096, 10000])}])
@@ -257,8 +257,8 @@ def run(ctx):
     ctx.units("table-shape", unit_shape,
               [{"n": 750 if q else 6000, "seed": ctx.seed, "shard": i} for i in range(8 if q else 16)], procs=16)
     ctx.exhaustive = False
-    ctx.extra["exhaustive_part"] = "all %d row strings over the 5 character classes {| \\ n blank other} of length <= %d" % (
-        sum(5 ** i for i in range(maxlen + 1)), maxlen)
+    ctx.extra["exhaustive_part"] = "all %d row strings over {| \\ n blank x #} (the 5 character classes the splitter distinguishes plus the comment character) of length <= %d" % (
+        sum(6 ** i for i in range(maxlen + 1)), maxlen)
     ctx.rule = ("rows: every string over {'|','\\\\','n',' ','x'} up to the length bound (exhaustive) and Hypothesis rows over Unicode "
                 "incl. exotic blanks, compared with the two-pass reference splitter (values and columns), directly on "
                 "GherkinLine.table_cells and through a one-step document; round trip: cells without blanks at the ends, escaped "
